@@ -1,0 +1,19 @@
+//go:build verif
+
+package apk
+
+import "crypto"
+
+// VerifMerkleBlocks drives a merkleHasher with the given writes (a nil entry is a flush) and returns the
+// concatenated block digests and the block count.
+func VerifMerkleBlocks(hash crypto.Hash, writes [][]byte) ([]byte, uint32) {
+	h := newMerkleHasher([]crypto.Hash{hash})
+	for _, w := range writes {
+		if w == nil {
+			h.flush()
+		} else {
+			_, _ = h.Write(w)
+		}
+	}
+	return h.blocks[0], h.count
+}
